@@ -229,6 +229,12 @@ def audit_axioms(prop_id):
         full = (ns + "." if ns else "") + n
         if full not in res:
             problems.append("no axiom report for " + full)
+    # thorough tier: the compiled module is replayed through Lean's independent re-checker as well (every
+    # declaration of CV.Props.<id> and of what it imports from this project is type-checked again by leanchecker)
+    if os.environ.get("VERIF_TIER") == "thorough" and not problems:
+        rc2, out2 = sh(["lake", "env", "leanchecker", "CV.Props." + prop_id], cwd=LEAN, timeout=1800)
+        if rc2 != 0:
+            problems.append("leanchecker rejects CV.Props.%s: %s" % (prop_id, out2[-400:]))
     return (not problems), res, problems
 
 
